@@ -165,6 +165,11 @@ func allEq(s []int, v int) bool {
 	return true
 }
 
+// same reports whether r still lives on the backing array old (same first cell)
+func same(r, old []int) bool {
+	return cap(r) > 0 && cap(old) > 0 && &r[:1][0] == &old[:1][0]
+}
+
 // mutate every element reachable through s (up to its capacity)
 func scribble(s []int) {
 	s = s[:cap(s)]
@@ -257,12 +262,10 @@ func exec(c *core.Ctx, cs Case) {
 			fail("panic at a valid position")
 		} else if !core.Eq(vis, want) {
 			fail(fmt.Sprintf("%s at %d: contents are not the splice %v", cs.Fn, cs.Index, want))
-		} else if inPlace && (len(obsArr) != capacity || !core.Eq(old, obsArr)) {
-			fail("append had room but the slice moved to another array")
-		} else if inPlace && !core.Eq(obsArr[n+k:], cs.Arr[n+k:]) {
+		} else if same(r, old) && !core.Eq(old[n+k:], cs.Arr[n+k:]) {
 			fail("spare capacity beyond the inserted elements was modified")
-		} else if !inPlace && !core.Eq(old, cs.Arr) {
-			fail("old backing array modified although append reallocated")
+		} else if !same(r, old) && !core.Eq(old, cs.Arr) {
+			fail("old backing array modified although the slice moved to a new array")
 		}
 		if !core.Eq(vals, cs.Vals) {
 			fail("inserted values slice was modified")
@@ -285,10 +288,10 @@ func exec(c *core.Ctx, cs Case) {
 			fail("panic at a valid position")
 		} else if !core.Eq(vis, want) {
 			fail(fmt.Sprintf("%s at %d length %d: contents are not the splice %v", cs.Fn, cs.Index, k, want))
-		} else if len(obsArr) != capacity || !core.Eq(old, obsArr) {
-			fail("slice no longer on its backing array")
-		} else if !core.Eq(obsArr[n-k:], cs.Arr[n-k:]) {
+		} else if same(r, old) && !core.Eq(old[n-k:], cs.Arr[n-k:]) {
 			fail("elements beyond the moved ones were modified")
+		} else if !same(r, old) && !core.Eq(old, cs.Arr) {
+			fail("old backing array modified although the slice moved to a new array")
 		}
 	case "Fill":
 		inPlace = true
@@ -374,10 +377,10 @@ func exec(c *core.Ctx, cs Case) {
 			fail("panic")
 		} else if !core.Eq(vis, want) {
 			fail(fmt.Sprintf("Grow: contents are not the input followed by %d zero values", cs.K))
-		} else if inPlace && cs.K > 0 && !core.Eq(old[n+cs.K:], cs.Arr[n+cs.K:]) {
+		} else if same(r, old) && !core.Eq(old[n+cs.K:], cs.Arr[n+cs.K:]) {
 			fail("spare capacity beyond the appended zero values was modified")
-		} else if !inPlace && !core.Eq(old, cs.Arr) {
-			fail("old backing array modified although append reallocated")
+		} else if !same(r, old) && !core.Eq(old, cs.Arr) {
+			fail("old backing array modified although the slice moved to a new array")
 		}
 	}
 	if inPlace {
